@@ -152,7 +152,10 @@ BApply(S, c, cmd) ==
                  ELSE IF ~blocked THEN
                       (IF exists /\ On("D_CLIENT_UNBLOCK_REPLIES_1_WHEN_NOT_BLOCKED") THEN BRes(S, RInt(1), {"D_CLIENT_UNBLOCK_REPLIES_1_WHEN_NOT_BLOCKED"}, <<>>)
                        ELSE BRes(S, RInt(0), {}, <<>>))
-                 ELSE IF lost /\ On("D_UNBLOCK_LOST_OUTSIDE_SELECT") THEN BRes(S, RInt(1), {"D_UNBLOCK_LOST_OUTSIDE_SELECT"} \cup zdv, <<>>)
+                 \* (it answers 1 only when it found the target captured: a target woken and held at after_wake is still
+                 \* captured, one held before its capture step is not)
+                 ELSE IF lost /\ On("D_UNBLOCK_LOST_OUTSIDE_SELECT")
+                      THEN BRes(S, RInt(IF S.conn[x].gate = "after_wake" THEN 1 ELSE 0), {"D_UNBLOCK_LOST_OUTSIDE_SELECT"} \cup zdv, <<>>)
                  ELSE IF S.conn[x].parked THEN BRes([S EXCEPT !.conn[x].blk.ub = mode], RInt(1), zdv, <<>>)
                  ELSE Finish(S, [S EXCEPT !.conn[x].blk = NoBlk], RInt(1), zdv,
                              IF zomb THEN <<>> ELSE <<[c |-> x, r |-> EndReply(mode)]>>, "CLIENT")
